@@ -13,7 +13,7 @@ from ..front import AnalysisError, norm, walk_no_nested
 from ..report import Ctx
 from ..symeval import SymEval, is_const, show
 from ..tables import Poly
-from .util import bv_equal, drop_exit_facts, guard_text, iteration_ends, is_func_call, is_self_call, leaves, mentions, msb_first_bits, strip_str, subterms
+from .util import bv_equal, drop_exit_facts, guard_text, iteration_ends, is_func_call, is_self_call, leaves, mentions, msb_first_bits, strip_str, subterms, uncond
 
 
 # ============================================================================ C15-D1 identity bits
@@ -492,7 +492,7 @@ def crc_transfer(eng: Engine, ctx: Ctx, rid: str):
     bvr.declare(("loopout", lid, sv), "s", deg)
     rv = bvr.to_bv(rets[0].term)
     same = rv is not None and all(rv.bit(i) == bvr.syms.bit(f"s.b{i}") for i in range(deg)) and rv.width() <= deg
-    ctx.check(bool(same) and not rets[0].guards, rid, f.qualname, "returned value", expected="the 24-bit state", found=rv.render(bvr.syms)[:100] if rv else show(rets[0].term)[:80], **eng.loc(f, rets[0].node))
+    ctx.check(bool(same) and uncond(rets[0]), rid, f.qualname, "returned value", expected="the 24-bit state", found=rv.render(bvr.syms)[:100] if rv else show(rets[0].term)[:80], **eng.loc(f, rets[0].node))
     ctx.notes.setdefault("crc", {})["implied_generator"] = hex(implied)
     ctx.notes["crc"]["input_bits"] = deg + 8
     ctx.notes["crc"]["output_forms"] = deg
@@ -855,7 +855,7 @@ def read_primitive_contract(eng: Engine, ctx: Ctx, rid: str):
     sizep = ("param", f.params[1]) if len(f.params) > 1 else None
     sreads = [e for e in se.effects if e.kind == "call" and e.term[2] == ("attr", ("field", sf), "read")]
     loc = eng.loc(f, f.node)
-    ctx.check(len(sreads) == 1 and sreads[0].term[3] == (sizep,) and not sreads[0].guards and not sreads[0].loops, rid, f.qualname, "stream request", expected=f"one unconditional self.{sf}.read({f.params[1] if sizep else '?'})",
+    ctx.check(len(sreads) == 1 and sreads[0].term[3] == (sizep,) and uncond(sreads[0]) and not sreads[0].loops, rid, f.qualname, "stream request", expected=f"one unconditional self.{sf}.read({f.params[1] if sizep else '?'})",
               found=", ".join(show(e.term)[:50] for e in sreads) or "none", **loc)
     if len(sreads) != 1:
         return 1
